@@ -142,6 +142,20 @@ type_specs = st.sampled_from([
     {'kind': 'name', 'api': 'build'},
     {'kind': 'name', 'api': 'clean'},
     {'kind': 'name', 'api': 'build_versioned'},
+    {'kind': 'name', 'api': 'build', 'name': ''},
+    {'kind': 'name', 'api': 'build', 'name': ' '},
+    {'kind': 'name', 'api': 'build', 'name': 'FBVERIF'},
+    {'kind': 'name', 'api': 'build', 'name': 'fbverif '},
+    {'kind': 'name', 'api': 'build', 'name': 'fbveri'},
+    {'kind': 'name', 'api': 'build', 'name': '0'},
+    {'kind': 'name', 'api': 'build', 'name': 'None'},
+    {'kind': 'name', 'api': 'clean', 'name': ''},
+    {'kind': 'name', 'api': 'clean', 'name': ' '},
+    {'kind': 'name', 'api': 'clean', 'name': 'FBVERIF'},
+    {'kind': 'name', 'api': 'clean', 'name': 'fbverif '},
+    {'kind': 'name', 'api': 'clean', 'name': 'fbveri'},
+    {'kind': 'name', 'api': 'clean', 'name': '0'},
+    {'kind': 'name', 'api': 'clean', 'name': 'None'},
     {'kind': 'directory', 'api': 'build'},
     {'kind': 'directory', 'api': 'clean'},
 ])
@@ -174,7 +188,7 @@ def attempt(h, spec, called):
         else:
             versions = v
     elif spec['kind'] == 'name':
-        name = 'another build'
+        name = spec.get('name', 'another build')
     elif spec['kind'] == 'directory':
         cache = os.path.dirname(h.cache) if os.path.dirname(h.cache) != h.R else h.R
     try:
@@ -207,10 +221,23 @@ def run_tree(data, counters, fails, nontriv, samples, n_attempts):
         if not os.path.isfile(h.cache):
             counters['trees_without_cache'] += 1
             return 0
+        lc = h.last_committed or {'outputs': (), 'created': ()}
+        # the user may have changed the tree since the last build (deleted outputs or created directories, planted files):
+        # a refused call must leave such a tree alone as well (e.g. not re-create recorded directories)
+        if data.draw(st.booleans()):
+            victims = sorted(h.relp(p) for p in set(lc['outputs']) | set(lc['created']) if p.startswith(h.R + '/') and not h.protected(p))
+            for _ in range(data.draw(st.integers(1, 2))):
+                if victims and data.draw(st.booleans()):
+                    h.apply(['rm', data.draw(st.sampled_from(victims))])
+                else:
+                    h.apply(data.draw(gen.ext_step([u for u in CFG['universe'] if not h.protected(h.sb.ap(u))])))
+            counters['trees_tampered'] += 1
+        if not os.path.isfile(h.cache):
+            counters['trees_without_cache'] += 1
+            return 0
         with open(h.cache, 'rb') as f:
             valid = f.read()
         st_valid = os.stat(h.cache)
-        lc = h.last_committed or {'outputs': (), 'created': ()}
         rich = bool(lc['outputs']) and bool(lc['created'])
         for _ in range(n_attempts):
             spec = data.draw(st.one_of(corruption_specs, corruption_specs, type_specs))
